@@ -53,7 +53,7 @@ func exactSlice(b []byte, slack int) []byte {
 	for i := len(b); i < len(back); i++ {
 		back[i] = 0xEE
 	}
-	return back[:len(b):len(b)+slack]
+	return back[: len(b) : len(b)+slack]
 }
 
 // c01Run performs one entry point call and checks the result. It returns the
